@@ -203,8 +203,35 @@ def isolation_table(ctx: Ctx):
     ctx.stats["isolation_streams"] = n
 
 
+def reparse_rule(ctx: Ctx):
+    """R11.7: wrapping a raw packet for parsing must not share the bit cursor with it: parsing the same raw packet twice
+    (a second definition parsing the raw packets of a headers-only pass; a user re-parsing err.partial_data.raw_data)
+    gives the same result and leaves the raw packet's own cursor untouched."""
+    prog = ctx.prog
+    from ..harness import Harness
+    from ..models import source_externals, ccsds_bytes
+    from ..interp import BytesObj
+    site = "packets.py::CCSDSPacket.__init__::cursor-not-shared"
+    h = Harness(prog, source_externals(), max_steps=400000)
+    try:
+        raw = BytesObj(ccsds_bytes(b"\x05\x06", apid=3), cls="RawPacketData")
+        p1 = h.ev("CCSDSPacket(raw_data=raw)", "packets.py", raw=raw)
+        k1, v1 = h.outcome("p.raw_data.read_as_int(16)", "packets.py", p=p1)
+        p2 = h.ev("CCSDSPacket(raw_data=raw)", "packets.py", raw=raw)
+        k2, v2 = h.outcome("p.raw_data.read_as_int(16)", "packets.py", p=p2)
+        pos_raw = raw.attrs.get("pos", 0)
+        same_obj = p1.attrs.get("raw_data") is raw or p2.attrs.get("raw_data") is p1.attrs.get("raw_data")
+        ok = k1 == "ok" and k2 == "ok" and v1 == v2 and pos_raw == 0 and not same_obj
+        ctx.decide(ok, "R11.7", site, "each parsed packet owns a fresh cursor",
+                   f"two packets built from the same raw bytes share a cursor: first read {v1!r}, second read {v2!r}, the raw packet's own "
+                   f"cursor is now {pos_raw}: parsing one packet changes the result of parsing it again")
+    except (Unsupported, Raised) as e:
+        ctx.unknown("R11.7", site, str(e))
+
+
 def check(ctx: Ctx) -> None:
     prog = ctx.prog
+    ctx.guard("R11.7", "packets.py::CCSDSPacket", reparse_rule, ctx)
     cg = CallGraph(prog)
     cl = effect_rule(ctx, cg, [PARSE], "R11.1", "decoding")
     gen = prog.func(GEN)
@@ -266,7 +293,7 @@ SPEC = PropSpec(
     pid="C11",
     title="Packets are parsed independently; generators and definitions do not interfere",
     check=check,
-    floors={"R11.1": 25, "R11.2": 2, "R11.3": 2, "R11.4": 8, "R11.6": 2},
+    floors={"R11.1": 25, "R11.2": 2, "R11.3": 2, "R11.4": 8, "R11.6": 2, "R11.7": 1},
     explanation=("Effect analysis over the resolved call graph: every function reachable from parse_ccsds_packet "
                  "(R11.1) and from packet_generator / ccsds_generator (R11.2) is scanned for attribute stores, "
                  "item stores, deletes and mutator calls; each is classified by the root of its target (self, cls, "
